@@ -202,5 +202,50 @@ Qed.
 Lemma seam_failure_first_call m fail root useX :
   fail 0 = true -> snd (enumerateTables m fail root useX) = IErrMap.
 Proof.
-  intros Hf. unfold enumerateTables, mapACPITable, idmap. simpl. rewrite Hf. reflexivity.
+  intros Hf. unfold enumerateTables, mapACPITable, idmap.
+  change (sk (st_seam state0)) with 0. rewrite Hf. reflexivity.
 Qed.
+
+(** everything the C14 property says about a successful DriverInit, in one statement *)
+Theorem driverInit_registered m fail root useX s info :
+  bytes_ok m -> root < two64 -> no_seam_failure fail ->
+  (forall len, tbl_len m root len -> 36 <= len) ->
+  driverInit m fail root useX = (s, IOk, info) ->
+  exists len rootRev es vs ev,
+    (* the root table is checksum-valid and lists es *)
+    tbl_len m root len /\ sums_to_zero m root len /\ m (w64 (root + 8)) = Some rootRev /\
+    root_lists m root len useX es /\
+    (* registered iff candidate and checksum-valid *)
+    (forall sg t, lookup sg (st_tmap s) = Some t -> candidate m rootRev es t /\ tbl_sig m t sg /\ tbl_good m t) /\
+    (distinct_signatures m rootRev es ->
+       forall sg t, lookup sg (st_tmap s) = Some t <-> (candidate m rootRev es t /\ tbl_sig m t sg /\ tbl_good m t)) /\
+    (* every candidate is visited; a report is a bad candidate; every bad candidate is reported; once *)
+    st_events s = List.rev ev /\
+    (forall t, In t vs <-> candidate m rootRev es t) /\
+    (forall e, In e ev -> exists sg len, e = EvMismatch sg (ev_addr e) len /\ In (ev_addr e) vs /\
+                                          tbl_bad m (ev_addr e) len /\ tbl_sig m (ev_addr e) sg) /\
+    (forall t len, In t vs -> tbl_bad m t len -> In t (map ev_addr ev)) /\
+    (NoDup vs -> NoDup (map ev_addr ev)).
+Proof.
+  intros Hok Hroot Hf H36 Hd. apply driverInit_ok in Hd.
+  destruct (enumerate_sound m fail root useX s Hok Hroot Hf Hd) as (len & rv & es & vs & ev & regs & Hl & Hz & Hrv & Hrl & Hw & Hev & Htm).
+  exists len, rv, es, vs, ev. rewrite Htm.
+  destruct (mismatch_reports m rv es vs ev regs Hw) as (M1 & M2 & M3 & M4).
+  split; [exact Hl|]. split; [exact Hz|]. split; [exact Hrv|]. split; [apply Hrl; auto|].
+  split; [apply (registered_only_valid m rv es vs ev regs Hw)|].
+  split; [intros Hdist; apply (registered_iff m rv es vs ev regs Hw Hdist)|].
+  split; [exact Hev|]. split; [exact M1|]. split; [exact M2|]. split; [exact M3 | exact M4].
+Qed.
+
+Lemma valid_table_spec (m : mem) (a len : N) :
+  (validTable m a len = Got true <-> sums_to_zero m a len) /\
+  (validTable m a len = Got false <-> sums_to_nonzero m a len).
+Proof. exact (conj (validTable_true m a len) (validTable_false m a len)). Qed.
+
+Lemma layout_constants :
+  acpi_rsdpSignature = rsdp_signature /\ acpi_off_RSDP_Revision = 15 /\
+  acpi_sizeof_RSDPDescriptor = 20 /\ acpi_extRSDPLength = 36 /\
+  acpi_off_RSDP_RSDTAddr = 16 /\ acpi_off_ExtRSDP_XSDTAddr = 24 /\
+  acpi_rsdpAlignment = 16 /\ acpi_rsdpLocationLow = 0xe0000 /\ acpi_rsdpLocationHi = 0xfffff /\
+  acpi_sizeof_SDTHeader = 36 /\ acpi_off_SDT_Length = 4 /\ acpi_fadtSignature = FACP.
+Proof. repeat split; reflexivity. Qed.
